@@ -575,8 +575,11 @@ func (b *Reader) SkipTo(ty, tag byte, require bool) (bool, error) {
 
 // ReadSliceInt8 reads []int8 for the given length and the require or optional sign.
 func (b *Reader) ReadSliceInt8(data *[]int8, len int32, require bool) error {
-	if len <= 0 {
+	if len == 0 {
 		return nil
+	}
+	if len < 0 || int(len) > b.buf.Len() {
+		return fmt.Errorf("read []int8 error: length %d exceeds the remaining %d bytes", len, b.buf.Len())
 	}
 
 	*data = make([]int8, len)
@@ -589,8 +592,11 @@ func (b *Reader) ReadSliceInt8(data *[]int8, len int32, require bool) error {
 
 // ReadSliceUint8 reads []uint8 force the given length and the require or optional sign.
 func (b *Reader) ReadSliceUint8(data *[]uint8, len int32, require bool) error {
-	if len <= 0 {
+	if len == 0 {
 		return nil
+	}
+	if len < 0 || int(len) > b.buf.Len() {
+		return fmt.Errorf("read []uint8 error: length %d exceeds the remaining %d bytes", len, b.buf.Len())
 	}
 
 	*data = make([]uint8, len)
@@ -603,6 +609,9 @@ func (b *Reader) ReadSliceUint8(data *[]uint8, len int32, require bool) error {
 
 // ReadBytes reads []byte for the given length and the require or optional sign.
 func (b *Reader) ReadBytes(data *[]byte, len int32, require bool) error {
+	if len < 0 || int(len) > b.buf.Len() {
+		return fmt.Errorf("read []byte error: length %d exceeds the remaining %d bytes", len, b.buf.Len())
+	}
 	*data = make([]byte, len)
 	_, err := b.buf.Read(*data)
 	return err
